@@ -15,9 +15,14 @@ which follows the code after the two `fix:` commits of this round):
                         block i (or both do not list it) iff they hold the same attributes in it.
   * `C25_diff`          on ascending block lists Diff returns exactly the ids of the first list's
                         blocks for which the second list has no block of equal id and checksum.
+  * `C25_bulk_sequential` the bulk path of the executor — the SetRowAttrs calls of one query accumulated
+                        per row with later calls overwriting key by key (`mergeCalls`), then one
+                        SetBulkAttrs — equals the calls applied one after the other in call order:
+                        per key the last writer wins, a later null deletes.
 Core Lean only.
 -/
 import PV.C25.Lemmas7
+import PV.C25.Lemmas9
 namespace PV.C25
 open List
 
@@ -80,6 +85,22 @@ theorem C25_checksum_iff {χ : Type} (H : List (Nat × Enc) → χ) (hH : Functi
     rw [inj h]
 
 example : Function.Injective (fun (l : List (Nat × Enc)) => l) := fun _ _ h => h
+
+/-- executeBulkSetRowAttrs = the calls of the query one after the other.  `calls` are the argument
+maps of the SetRowAttrs calls of one field in call order (Go maps: distinct keys; supported value
+types); rows may repeat in any pattern. -/
+theorem C25_bulk_sequential (st : Spec.SMap) (hst : SpecOK st) (calls : List (Nat × List (Nat × InVal)))
+    (hc : ∀ c ∈ calls, Sorted c.2 ∧ Spec.valid c.2 = true) :
+    Spec.bulk st (mergeCalls [] calls) = (calls.foldl (fun st c => (Spec.set st c.1 c.2).1) st, true) := by
+  rw [bulk_eq_applyAll st _ (valid_mergeCalls calls [] (fun p hp => by simp at hp) (fun c h => (hc c h).2)),
+    mergeCalls_sequential calls [] st hst ⟨by simp [Sorted], fun p hp => by simp at hp⟩ hc,
+    seq_eq_applyAll calls st (fun c h => (hc c h).2)]
+  rfl
+
+/-- the row repeated with an overlapping key, a type change and a later null -/
+example : ∀ c ∈ [((0 : Nat), [((5 : Nat), InVal.bool true)]), (0, [(5, .bool false), (6, .nil)]), (1, [(5, .str [97])]),
+    (0, [(5, .nil)])], Sorted c.2 ∧ Spec.valid c.2 = true := by
+  intro c h; simp at h; rcases h with rfl | rfl | rfl | rfl <;> simp [Sorted, Spec.valid, coerce]
 
 /-- Diff on ascending block lists. -/
 theorem C25_diff {χ : Type} [DecidableEq χ] (a b : List (Block χ))
